@@ -225,7 +225,7 @@ pub fn supervise(prop: &str, tier: &str, level: &str, args: &[String]) -> i32 {
             .stdout(std::process::Stdio::null())
             .spawn()
             .expect("spawn replay child");
-        let st = wait_with_timeout(&mut ch, Duration::from_secs(40));
+        let st = wait_with_timeout(&mut ch, Duration::from_secs(150));
         let bad = match st {
             None => Some("hang".to_string()),
             Some(st) => match st.code() {
